@@ -75,8 +75,10 @@ class Exec:
         failing: Any = (),
         sleeps: Optional[Dict[str, int]] = None,
         label: str = "",
+        watchdog: bool = True,
     ) -> None:
         assert mode in ("free", "ctl")
+        self.watchdog = watchdog
         self.mode = mode
         self.choices = list(choices)
         self.choice_pos = 0
@@ -105,7 +107,7 @@ class Exec:
         self._token = CUR.set(self)
         self.sched_thread = threading.get_ident()
         self.last_event = time.monotonic()
-        if self.mode == "ctl":
+        if self.watchdog:
             _watchdog_register(self)
         return self
 
@@ -118,7 +120,7 @@ class Exec:
         if pend:
             _real_wait(pend, timeout=3.0)
         self.finished = True
-        if self.mode == "ctl":
+        if self.watchdog:
             _watchdog_unregister(self)
         CUR.reset(self._token)
 
@@ -304,6 +306,21 @@ class Exec:
                     self.cv.notify_all()
                 end = time.monotonic() + 30.0
 
+    @staticmethod
+    def _failed_sites(done: Any) -> List[str]:
+        """Sites whose injected failure is carried by one of the futures a wait call handed to the scheduler."""
+        out = []
+        for f in done:
+            try:
+                exc = f.exception() if f.done() and not f.cancelled() else None
+            except BaseException:  # noqa: BLE001
+                exc = None
+            while exc is not None and not isinstance(exc, InjectedError):
+                exc = exc.__cause__
+            if exc is not None:
+                out.append(exc.site)
+        return out
+
     def _observe_thread(self, done: Any, e: Dict[str, Any]) -> None:
         ids = {id(f) for f in done}
         obs = []
@@ -311,14 +328,14 @@ class Exec:
             if not t.observed and t.future is not None and id(t.future) in ids:
                 t.observed = True
                 obs.append(t.site if t.site is not None else f"?{t.n}")
-        self.ev("WAITRET", kind="thread", of=e["seq"], observed=obs, ndone=len(done))
+        self.ev("WAITRET", kind="thread", of=e["seq"], observed=obs, ndone=len(done), failed_seen=self._failed_sites(done))
 
     async def on_async_wait(self, fs: Any, timeout: Any, return_when: str) -> Any:
         fs = set(fs)
         if self.mode != "ctl" or self.abort:
             e = self.ev("WAIT", kind="async", n=len(fs), when=return_when, blocking=None)
             res = await _real_async_wait(fs, timeout=timeout, return_when=return_when)
-            self._observe_async(e, len(res[0]))
+            self._observe_async(e, len(res[0]), res[0])
             return res
         self.in_hook += 1
         try:
@@ -361,18 +378,20 @@ class Exec:
                 res = await _real_async_wait(fs, timeout=timeout, return_when=return_when)
             else:
                 res = await _real_async_wait(fs, timeout=timeout, return_when=return_when)
-            self._observe_async(e, len(res[0]))
+            self._observe_async(e, len(res[0]), res[0])
             return res
         finally:
             self.in_hook -= 1
 
-    def _observe_async(self, e: Dict[str, Any], ndone: int) -> None:
+    def _observe_async(self, e: Dict[str, Any], ndone: int, done: Any = ()) -> None:
+        # exact under the controller (the hook made the loop catch up with every finished pool future); in free
+        # mode "observed" may run ahead of what asyncio.wait returned, "failed_seen" is exact in both modes
         obs = []
         for t in self.toks:
             if t.kind == "async" and not t.observed and t.future is not None and t.future.done():
                 t.observed = True
                 obs.append(t.site if t.site is not None else f"?{t.n}")
-        self.ev("WAITRET", kind="async", of=e["seq"], observed=obs, ndone=ndone)
+        self.ev("WAITRET", kind="async", of=e["seq"], observed=obs, ndone=ndone, failed_seen=self._failed_sites(done))
 
     # ------------------------------------------------------------------ pool side
     def on_submit(self, pool: Any, fn: Any, args: Any, kwargs: Any, real_submit: Any) -> Any:
@@ -521,13 +540,19 @@ def _frames_of(ident: Optional[int]) -> List[str]:
 
 
 def _watchdog_loop() -> None:
+    last_tick = time.monotonic()
     while True:
         time.sleep(0.5)
         with _wd_lock:
             active = list(_wd_active)
         now = time.monotonic()
+        frozen = now - last_tick > 2.0  # the whole process was not scheduled: that is not the scheduler's fault
+        last_tick = now
         for ex in active:
             if ex.finished:
+                continue
+            if frozen and ex.stalled is None:
+                ex.last_event = now
                 continue
             idle = now - ex.last_event
             if ex.stalled is None and idle > STALL_S:
